@@ -43,6 +43,8 @@ type Spec struct {
 	Packages []Pkg `json:"packages"`
 }
 
+var vars = map[string]string{}
+
 func fail(format string, a ...any) {
 	fmt.Fprintf(os.Stderr, "vlift: "+format+"\n", a...)
 	os.Exit(2)
@@ -54,6 +56,14 @@ func main() {
 	goroot := flag.String("goroot", "", "")
 	out := flag.String("out", "", "")
 	verif := flag.String("verif", "/verif", "")
+	flag.Func("var", "NAME=value substituted for ${NAME} in file paths", func(v string) error {
+		kv := strings.SplitN(v, "=", 2)
+		if len(kv) != 2 {
+			return fmt.Errorf("want NAME=value")
+		}
+		vars[kv[0]] = kv[1]
+		return nil
+	})
 	flag.Parse()
 	b, err := os.ReadFile(*specPath)
 	if err != nil {
@@ -78,6 +88,9 @@ func liftPkg(p Pkg, repo, goroot, out, verif string) {
 	have := map[string]bool{}
 	for _, f := range p.Files {
 		src := strings.ReplaceAll(strings.ReplaceAll(f, "${REPO}", repo), "${GOROOT}", goroot)
+		for k, v := range vars {
+			src = strings.ReplaceAll(src, "${"+k+"}", v)
+		}
 		data, err := os.ReadFile(src)
 		if err != nil {
 			fail("read %s: %v", src, err)
@@ -135,6 +148,15 @@ func liftPkg(p Pkg, repo, goroot, out, verif string) {
 		if !strings.HasSuffix(base, ".go") {
 			base += ".go"
 		}
+		// the glue joins the lifted package whatever its name
+		lines := strings.SplitN(string(data), "\n", -1)
+		for i, l := range lines {
+			if strings.HasPrefix(l, "package ") {
+				lines[i] = "package " + p.Name
+				break
+			}
+		}
+		data = []byte(strings.Join(lines, "\n"))
 		if err := os.WriteFile(filepath.Join(dir, "glue_"+base), data, 0o644); err != nil {
 			fail("%v", err)
 		}
